@@ -1,16 +1,6 @@
 (* C04 -- the body of process_iter(): what one resumption of a generator preserves. *)
 From PV Require Import C04.Spec C04.ProofsTable.
 
-Definition ytriple := (Z * nat * option (list Z))%type.
-Definition ypid (y : ytriple) : Z := fst (fst y).
-
-(* does attrs make as_dict call Process.ppid() ? *)
-Definition req_ppid (valid : list Z) (a : attrs_t) : bool :=
-  match a with
-  | None => false
-  | Some l => zmem PPID (match nodup Z.eq_dec l with [] => valid | _ => nodup Z.eq_dec l end)
-  end.
-
 (* the part of a generator's ghost that never changes once its body was entered *)
 Record frame := { f_attrs : attrs_t; f_list : list Z; f_cache : dict; f_marked : list Z; f_heap0 : nat }.
 Definition frame_of (gh : ghost) : frame :=
